@@ -329,8 +329,12 @@ pub fn enumerate_images(unsynced: &[W], size_changed: bool, pagesize: u64, rng: 
         // header record torn at 8-byte word granularity, any subset of words: every single word
         // missing, every single word alone, and seeded subsets (the rest of the page persists or not)
         if is_header(w) && n >= 104 {
-            let words = 13usize; // bytes 0..104 hold the page header and the meta record
+            // bytes 0..104 hold the page header and the current-format record; a legacy record's
+            // digest extends to byte 128, so the words up to there are torn independently as well
+            let words = if n >= 128 { 16usize } else { 13usize };
             let others: Vec<(usize, Vec<(usize, usize)>)> = (0..k).filter(|i| *i != j).map(|i| (i, full(&unsynced[i]))).collect();
+            // if the same sync epoch holds a second header write, it may be lost while this one tears
+            let other_headers: Vec<usize> = (0..k).filter(|i| *i != j && is_header(&unsynced[*i])).collect();
             let mut subsets: Vec<(Vec<bool>, String)> = Vec::new();
             for wi in 0..words {
                 let mut all = vec![true; words];
@@ -355,8 +359,13 @@ pub fn enumerate_images(unsynced: &[W], size_changed: bool, pagesize: u64, rng: 
                     ranges.push((words * 8, n));
                 }
                 let mut parts = others.clone();
-                parts.push((j, ranges));
-                out.push(ImageSpec { parts, size_applied: true, desc });
+                parts.push((j, ranges.clone()));
+                out.push(ImageSpec { parts, size_applied: true, desc: desc.clone() });
+                for oh in &other_headers {
+                    let mut parts: Vec<(usize, Vec<(usize, usize)>)> = others.iter().filter(|(i, _)| i != oh).cloned().collect();
+                    parts.push((j, ranges.clone()));
+                    out.push(ImageSpec { parts, size_applied: true, desc: format!("{}, header write {} lost", desc, oh) });
+                }
             }
         }
         // seeded sector subset of this write with all others persisted / none persisted
